@@ -274,7 +274,16 @@ pub fn failed_call_history(rng: &mut crate::rng::Rng) {
             // output buffer from the marker before it looks at the rest): use the word that is certainly neither
             bad = badtop;
         }
-        match rng.below(12) {
+        match rng.below(14) {
+            12 | 13 => {
+                // the projection itself, relative to a face that does not exist
+                use a5::coordinate_systems::{Radians, Spherical};
+                let face = *rng.pick(&[12u8, 13, 17, 23, 24, 59, 255]);
+                let (x, y) = (rng.range(-0.7, 0.7), rng.range(-0.7, 0.7));
+                let (theta, phi) = (rng.range(0.0, 6.28), rng.range(0.1, 3.0));
+                let _ = guard(|| DodecahedronProjection::get_thread_local().inverse(Face::new(x, y), face));
+                let _ = guard(|| DodecahedronProjection::get_thread_local().forward(Spherical::new(Radians::new_unchecked(theta), Radians::new_unchecked(phi)), face));
+            }
             0 => {
                 // fails inside the expansion, after some cells have been expanded
                 let _ = guard(|| a5::uncompact(&[good, badtop], t_up));
@@ -325,5 +334,31 @@ pub fn failed_call_history(rng: &mut crate::rng::Rng) {
                 let _ = guard(|| a5::hex_to_u64(if rng.chance(0.5) { "zz" } else { "" }));
             }
         }
+    }
+}
+
+/// A word that is not the canonical id of `c` but that the library's documented scan reads as `c`: the canonical id with one
+/// stray bit set below the resolution marker (None for resolutions without room below the marker). C14 lets the library either
+/// reject such a word or treat it as the cell it aliases; whichever it does, it must do it consistently.
+pub fn stray_alias(rng: &mut crate::rng::Rng, c: MCell) -> Option<u64> {
+    if c.res < 2 {
+        return None;
+    }
+    let m = marker_bit(c.res);
+    if m == 0 {
+        return None;
+    }
+    // even positions below the marker are never marker positions of a finer resolution... odd ones are: only bits that
+    // keep the scan's answer (the LOWEST set marker position decides) may be set, i.e. non-marker positions
+    let candidates: Vec<u32> = (0..m).filter(|b| (0..=MAX_RES).all(|r| marker_bit(r) != *b)).collect();
+    if candidates.is_empty() {
+        return None;
+    }
+    let b = candidates[rng.usize(candidates.len())];
+    let w = encode(c) | (1u64 << b);
+    if alias_cell(w) == Some(c) {
+        Some(w)
+    } else {
+        None
     }
 }
